@@ -47,7 +47,7 @@ def setup_logging(verbose: bool = False) -> None:
     )
 
 
-DEEP_SOURCE_RECURSION_LIMIT = 100_000
+DEEP_SOURCE_RECURSION_LIMIT = 1_000_000
 
 
 @click.group()
